@@ -5,6 +5,7 @@ pub mod c03;
 pub mod c04;
 pub mod c10;
 pub mod c11;
+pub mod c12;
 pub mod c06;
 
 pub fn lookup(id: &str) -> Option<Box<dyn Prop>> {
@@ -15,6 +16,7 @@ pub fn lookup(id: &str) -> Option<Box<dyn Prop>> {
         "C06" => Some(Box::new(c06::C06)),
         "C11" => Some(Box::new(c11::C11)),
         "C10" => Some(Box::new(c10::C10)),
+        "C12" => Some(Box::new(c12::C12)),
         _ => None,
     }
 }
